@@ -431,7 +431,7 @@ def child_main():
                 in_field[0] -= 1
         # the --process-types step wraps the parser: a crash in there is a crash of the parsing pipeline as well
         outer_events = []
-        real_processtypes = epydoc2stan.processtypes
+        real_processtypes = getattr(epydoc2stan, 'processtypes', None)     # (a refactoring may not import it any more)
 
         def wrap_processtypes(parse):
             inner = real_processtypes(parse)
@@ -446,7 +446,8 @@ def child_main():
                     outer_events.append([doc, type(e).__name__])
                     raise
             return outer
-        epydoc2stan.processtypes = wrap_processtypes
+        if real_processtypes is not None:
+            epydoc2stan.processtypes = wrap_processtypes
         epydoc2stan.get_to_stan_error = wrap_gtse
         epydoc2stan.Field.format = wrap_field_format
         epydoc2stan.get_parser_by_name = wrap_get_parser
@@ -554,7 +555,8 @@ def child_main():
             epydoc2stan.format_docstring_fallback = real_fb
             epydoc2stan.get_to_stan_error = real_gtse
             epydoc2stan.Field.format = real_field_format
-            epydoc2stan.processtypes = real_processtypes
+            if real_processtypes is not None:
+                epydoc2stan.processtypes = real_processtypes
             for cls, orig_tn in wrapped:
                 cls.to_node = orig_tn
         return out
